@@ -203,10 +203,13 @@ class HDF5Dataset(Dataset):
 
         if dataframe.dataset == self:
             # rename a dataframe
+            if name in self._dataframes:
+                raise ValueError("A dataframe with the the name {} already exists in this "
+                                 "dataset".format(name))
+            self._file.move(dataframe.h5group.name, name)
             del self._dataframes[dataframe.name]
             dataframe.name = name
             self._dataframes[name] = dataframe
-            self._file.move(dataframe.h5group.name, name)
         else:
             # new dataframe from another dataset
             copy(dataframe, self, name)
